@@ -4,7 +4,7 @@ import p_c09
 VFILES = ["props/C19.v"]
 USES_TRANSLATOR = True
 EXTRA_TRUST = p_c09.EXTRA_TRUST + ["coq/Pairs.v: the list of shared constructs (transcribed from the property)"]
-ASSUMPTIONS = ["2 of the 46 pairs (rfc5987/rfc8187 charset, ext-value) are not covered by the theorem (checker incompleteness) and rest on the differential check only"]
+ASSUMPTIONS = []
 
 
 def run(ctx):
